@@ -5,6 +5,7 @@ CONSTANTS
   HasTimeout = {j1}
   IgnoresTerm = {}
   PopenMayFail = {j1}
+  PreFix = FALSE
   CoarseCancel = FALSE
   Modes = {"none", "nowait", "wait"}
   Mutation = "no_check"
